@@ -70,7 +70,7 @@ def build_both(tag, files):
             f.write(txt)
     res = {"dir": d}
     out = os.path.join(d, "p_llgo.bin")
-    rc, so, se = core.llgo_build(w, llgo, d, out, timeout=2400)
+    rc, so, se = core.llgo_build(w, llgo, d, out, timeout=3600)
     res["llgo"] = (out if rc == 0 else None, (so + se)[-6000:], rc)
     for name, go in [("go124", core.GO124)] + ([("go126", core.GO126)] if THOROUGH else []):
         out = os.path.join(d, "p_%s.bin" % name)
@@ -180,6 +180,8 @@ for kind, b in results:
         continue
     if b["go124"][0] is None:
         core.broken("reference toolchain rejects the probe program:\n" + b["go124"][1])
+    if b["llgo"][0] is None and b["llgo"][2] == -999:
+        core.broken("llgo build of the probe program hit the build watchdog (overloaded machine)")
     if b["llgo"][0] is None:
         chk.violation("probe-build-failure", {"build.log": b["llgo"][1]}, "llgo cannot build the fixed probe program progs/c15_probe:\n" + b["llgo"][1][-1200:])
         continue
@@ -216,6 +218,9 @@ for kind, b in results:
         core.broken("reference toolchain rejects the build probe %s:\n%s" % (kind, b["go124"][1]))
     chk.cov["evaluations"] += 1
     bad = None
+    if b["llgo"][0] is None and b["llgo"][2] == -999:
+        chk.inconclusive += 1
+        continue
     if b["llgo"][0] is None:
         msg = re.findall(r"panic: [^\n]*|undefined reference[^\n]*", b["llgo"][1]) or [b["llgo"][1][-300:]]
         bad = "llgo fails to build %s: %s" % (os.path.relpath(pdir, core.V), msg[0][:300])
@@ -233,6 +238,7 @@ for kind, b in results:
 # ---------------------------------------------------------------- generated programs
 
 invalid = 0
+build_timeouts = 0
 units_total = 0
 units_compared = 0
 gen_panics = 0
@@ -251,6 +257,10 @@ for kind, res in results:
     if res.get("invalid"):
         invalid += 1
         chk.sample({"invalid_generated_program": i, "log": (b["go124"][1] + (b.get("go126") or ("", ""))[1])[-600:]}, limit=5)
+        continue
+    if b["llgo"][0] is None and b["llgo"][2] == -999:
+        chk.inconclusive += 1      # build watchdog (overloaded machine): no verdict
+        build_timeouts += 1
         continue
     if b["llgo"][0] is None:
         msg = (re.findall(r"panic: [^\n]*", b["llgo"][1]) or [b["llgo"][1][-400:]])[0]
@@ -321,6 +331,7 @@ chk.cov["units_generated"] = units_total
 chk.cov["units_compared"] = units_compared
 chk.cov["units_differing"] = nviol_units
 chk.cov["invalid_generated"] = invalid
+chk.cov["build_timeouts"] = build_timeouts
 chk.cov["generator_panic_units"] = gen_panics
 chk.cov["reference_disagreement_units"] = ref_disagree
 chk.cov["advisory_memcpy_overlap_reports"] = overlap_reports
